@@ -15,24 +15,24 @@ PROPS = {
         "module": "Cdecao.Props.C01",
         "extra_modules": ["Cdecao.Props.EngineTie"],
         "theorems": ["Props.C01", "Props.C01_node", "Props.C01_valid", "Props.C01_C08_cde"],
-        "streams": ["node", "node-rooms", "solve", "cdedb-read", "e2e-cde", "cli-simple", "node-exhaustive"],
+        "streams": ["node", "node-rooms", "solve", "cdedb-read", "e2e-cde", "cli-simple", "node-exhaustive", "simple-read"],
     },
     "C02": {
         "module": "Cdecao.Props.C02",
-        "extra_modules": ["Cdecao.Props.EngineTie"],
+        "extra_modules": ["Cdecao.Props.EngineTie", "Cdecao.Props.PanicTie"],
         "theorems": ["Props.C02_node_bound", "Props.C02_node_mono", "Props.C02_cover", "Props.C02_node_none", "Props.C02_feas_in_sol",
                      "Props.C02_feas_optimal", "Props.C02_wrong_empty", "Props.C02_compose", "Props.C02_partial", "Props.noFreeableb_sound", "Props.C02_full_counterexample", "Props.F1_root", "Props.F1_enforce", "Props.F1_cancel"],
         "streams": ["solve-norooms", "node-norooms", "hungarian", "engine", "cli-simple", "node-exhaustive", "hungarian-exhaustive"],
     },
     "C03": {
         "module": "Cdecao.Props.C03",
-        "extra_modules": ["Cdecao.Props.EngineTie", "Cdecao.Props.MainC03"],
+        "extra_modules": ["Cdecao.Props.EngineTie", "Cdecao.Props.MainC03", "Cdecao.Props.PanicTie"],
         "theorems": ["Props.C03", "Props.C03_bounded_of_spec", "Props.C03_caobab", "Props.C03_F11_not_bounded", "Props.F11_root", "Props.F11_enforce2", "Props.F11_enforce2_cancel0"],
         "streams": ["engine", "solve", "solve-rooms", "engine-exhaustive", "cli-simple"],
     },
     "C04": {
         "module": "Cdecao.Props.C04",
-        "extra_modules": ["Cdecao.Props.EngineTie"],
+        "extra_modules": ["Cdecao.Props.EngineTie", "Cdecao.Props.PanicTie"],
         "theorems": ["Props.C04_no_deadlock", "Props.C04_done_means_finished", "Props.C04_stats_step", "Props.C04_bounded_work",
                      "Props.C04_stats_reach", "Props.C04_panicked", "Props.C04_stats_at_done", "Props.C04_stats_at_finished", "Props.C04_done_absorbing", "Props.C04_join",
                      "Props.C04_caobab_wf", "Props.C04_caobab_budget", "Props.C04_caobab_run_bound", "Props.C04_caobab_gen_bound",
@@ -64,11 +64,11 @@ PROPS = {
         "extra_modules": ["Cdecao.Props.EngineTie"],
         "theorems": ["Props.C08_score", "Props.C08_score_valid", "Props.C08_max_ge", "Props.C08_quality_identity", "Props.C08_quality_lack",
                      "Props.C08_combined", "Props.C08_quality_max", "Props.C08_quality_engine", "Props.C01_C08_cde"],
-        "streams": ["node", "node-rooms", "solve", "solve-rooms", "cli-simple", "e2e-cde", "node-exhaustive"],
+        "streams": ["node", "node-rooms", "solve", "solve-rooms", "cli-simple", "e2e-cde", "node-exhaustive", "simple-read"],
     },
     "C09": {
         "module": "Cdecao.Props.C09",
-        "extra_modules": ["Cdecao.Props.EngineTie"],
+        "extra_modules": ["Cdecao.Props.EngineTie", "Cdecao.Props.PanicTie"],
         "theorems": ["Props.C09", "Props.C09_none_iff"],
         "streams": ["engine", "engine-exhaustive"],
     },
@@ -76,7 +76,7 @@ PROPS = {
         "module": "Cdecao.Props.C10",
         "extra_modules": ["Cdecao.Props.Main", "Cdecao.Props.PanicTie", "Cdecao.Props.MainE2E", "Cdecao.Props.C10U32", "Cdecao.Props.EngineTie"],
         "theorems": ["Props.main_simple_total", "Props.main_cde_total", "Props.panic_sites_tie", "Props.C10_node", "Props.C10_tree", "Props.C10_cli", "Props.C10_cde", "Props.C10_main", "Props.C10_main_threads", "Props.main_skeleton_tie"],
-        "streams": ["node", "node-rooms", "solve", "cli-simple", "cli-main", "node-exhaustive"],
+        "streams": ["node", "node-rooms", "solve", "cli-simple", "cli-main", "node-exhaustive", "simple-read"],
     },
     "C11": {
         "module": "Cdecao.Props.C11",
@@ -99,14 +99,14 @@ PROPS = {
         "module": "Cdecao.Props.C14",
         "extra_modules": ["Cdecao.Props.Main"],
         "theorems": ["Props.C14_entries", "Props.C14_entries_sorted", "Props.C14_array"],
-        "streams": ["cli-simple"],
+        "streams": ["cli-simple", "simple-read"],
     },
     "C15": {
         "module": "Cdecao.Props.C15",
         "extra_modules": ["Cdecao.Props.Main", "Cdecao.Props.PanicTie"],
         "theorems": ["Props.panic_sites_tie", "Props.main_skeleton_tie", "Props.C15_main_refused", "Props.main_front_codes", "Props.C15_main_simple", "Props.C15_main_cde", "Props.C15_accept_sound", "Props.C15_missing_member", "Props.C15_rooms_str", "Props.C15_rooms_str_refuse", "Props.C15_rooms_file",
                      "Props.C15_rooms_file_refuse", "Props.C15_rooms_kind", "Props.splitComma_spec", "Props.parseUsize_shape"],
-        "streams": ["cli-malformed", "cdedb-read", "cli-main"],
+        "streams": ["cli-malformed", "cdedb-read", "cli-main", "simple-read"],
     },
     "C16": {
         "module": "Cdecao.Props.C16",
@@ -118,7 +118,7 @@ PROPS = {
         "module": "Cdecao.Props.C17",
         "extra_modules": ["Cdecao.Props.EngineTie"],
         "theorems": ["Props.C17_rooms_le_opt", "Props.C17_rooms_nonbinding", "Props.C17_rooms_nonbinding_search"],
-        "streams": ["roompairs", "solve-rooms", "node-rooms"],
+        "streams": ["roompairs", "solve-rooms", "node-rooms", "simple-read"],
     },
     "C18": {
         "module": "Cdecao.Props.C18",
